@@ -1,4 +1,5 @@
 """C05 -- hostile bytes are rejected in bounded work (DESIGN.md section 3, C05)."""
+import os
 import struct
 
 from hypothesis import strategies as st
@@ -263,6 +264,75 @@ def enum_hostile(tier):
                            'hsig': hs, 'body': body.hex(), 'little': little}
 
 
+# --------------------------------------------------------------------------
+# coverage-guided campaign (thorough tier only)
+
+def enum_atheris(tier):
+    if tier != 'thorough':
+        return
+    for i, corpus in enumerate(['empty', 'seeded', 'empty', 'seeded', 'seeded', 'empty', 'seeded', 'seeded']):
+        yield {'kind': 'atheris', 'corpus': corpus, 'runs': 150000, 'slot': i}
+
+
+def run_atheris(case):
+    import glob
+    import shutil
+    import subprocess
+    import sys
+    import tempfile
+    from ..core import VERIF_DIR
+    seed = int(os.environ.get('VERIF_SEED', '1') or 1) * 100 + case['slot']
+    if not os.path.isdir(os.path.join(VERIF_DIR, '.deps', 'atheris')):
+        return [], 0          # tooling not installed (setup_cmd installs it): nothing explored, nothing claimed
+    work = tempfile.mkdtemp(prefix='verif-c05-fuzz-')
+    try:
+        corpus = os.path.join(work, 'corpus')
+        os.makedirs(corpus)
+        if case['corpus'] == 'seeded':
+            samples = [R.encode_message(1, 7, {1: '/a/b', 2: 'a.b', 3: 'M', 6: 'c.d'}, 'sa{sv}i', ['x', [['k', ['u', 5]]], -1]),
+                       R.encode_message(2, 8, {5: 7}, 'a(yx)v', [[[1, 2]], ['as', ['p']]], little=False),
+                       R.encode_message(4, 9, {1: '/', 2: 'a.b', 3: 'S'}),
+                       R.encode_message(3, 10, {4: 'a.b.E', 5: 3}, 's', ['boom'])]
+            for i, b in enumerate(samples):
+                with open(os.path.join(corpus, 'seed%d' % i), 'wb') as f:
+                    f.write(b)
+        art = os.path.join(work, 'art') + os.sep
+        os.makedirs(art)
+        env = dict(os.environ)
+        cmd = [sys.executable, os.path.join(VERIF_DIR, 'fuzz', 'c05_atheris.py'), corpus, '-runs=%d' % case['runs'],
+               '-seed=%d' % seed, '-max_len=512', '-artifact_prefix=' + art, '-print_final_stats=1']
+        pr = subprocess.run(cmd, env=env, capture_output=True, timeout=3600)
+        text = (pr.stderr or b'').decode('utf-8', 'replace')
+        execs = 0
+        for ln in text.splitlines():
+            if 'stat::number_of_executed_units' in ln:
+                execs = int(ln.split()[-1])
+        out = []
+        for crash in sorted(glob.glob(art + 'crash-*') + glob.glob(art + 'timeout-*') + glob.glob(art + 'oom-*')):
+            data = open(crash, 'rb').read()
+            discs = _attack(data)      # the check's own oracle decides
+            for d in discs:
+                d.detail = 'found by atheris (seed %d, %s corpus): %s' % (seed, case['corpus'], d.detail)
+            out += discs
+        if pr.returncode not in (0,) and not out and 'StepBudgetExceeded' not in text and 'ERROR: libFuzzer' in text:
+            raise RuntimeError('atheris harness failure: ' + text[-800:])
+        return out, execs
+    finally:
+        shutil.rmtree(work, ignore_errors=True)
+
+
+def run_any(case):
+    if case.get('kind') == 'atheris':
+        return run_atheris(case)
+    return run(case)
+
+
+def classify_any(case):
+    if case.get('kind') == 'atheris':
+        return True, ['atheris_' + case['corpus']]
+    return classify_(case)
+
+
 SUBCHECKS = [
     Subcheck('hostile', run, classify_, strategy=lambda tier: hostile_case(tier),
              n={'quick': 700, 'thorough': 8000}),
@@ -272,4 +342,5 @@ SUBCHECKS = [
     Subcheck('hostile_list', run, classify_, enumerate=enum_hostile, shards={'quick': 4, 'thorough': 4},
              exhaustive_note='%d listed hostile signatures x 2 placements x 4 declared lengths x 2 byte orders'
                              % len(HOSTILE_SIGS)),
+    Subcheck('atheris', run_any, classify_any, enumerate=enum_atheris, shards={'quick': 1, 'thorough': 8}),
 ]
